@@ -415,9 +415,14 @@ def greedy_rejection(prog: Program, rep, RID: str):
     for st in ast.walk(loop):
         if isinstance(st, ast.If) and any(isinstance(s, ast.Return) and isinstance(s.value, ast.Constant) and s.value.value is False for s in st.body):
             t = st.test
-            if isinstance(t, ast.Compare) and len(t.ops) == 1 and isinstance(t.ops[0], ast.Lt) and "max_occurrence(" in norm(t.left) and \
-                    norm(t.comparators[0]).replace(" ", "") in ("constraint_length*coverage_fraction", "coverage_fraction*constraint_length"):
-                ok = True
+            if isinstance(t, ast.Compare) and len(t.ops) == 1 and isinstance(t.ops[0], (ast.Lt, ast.Gt)):
+                from rules.common import all_local_defs as _ald, substitute_locals as _sl
+                # (a local holding the result of max_occurrence, stored once in the loop, stands for the call; `b > a` is `a < b`)
+                lo, hi = (t.left, t.comparators[0]) if isinstance(t.ops[0], ast.Lt) else (t.comparators[0], t.left)
+                _d = {k_: v_ for k_, v_ in _ald(f.node).items() if isinstance(v_, ast.Call) and "max_occurrence" in norm(v_.func)}
+                if "max_occurrence(" in norm(_sl(lo, _d)) and \
+                        norm(hi).replace(" ", "") in ("constraint_length*coverage_fraction", "coverage_fraction*constraint_length"):
+                    ok = True
     acc = [c for c in calls_in(f.node) if (dotted(c.func) or "") == "self.set_solved"]
     before = acc and all(loop.lineno < c.lineno for c in acc)
     # the loop must not be nested under a condition other than `if self.subpath_constraints`
